@@ -85,6 +85,57 @@ def menu_objects():
     return t
 
 
+# names a protocol front-end might be tempted to treat specially: what browsers and crawlers ask every web server for,
+# index documents of each protocol family, and names that merely resemble the server's own reserved prefixes
+WEB_NAMES = ["favicon.ico", "robots.txt", "index.html", "index.gmi", "index.wml", "index.txt", "sitemap.xml", "humans.txt", "ads.txt",
+             "apple-touch-icon.png", "apple-touch-icon-precomposed.png", "crossdomain.xml", "browserconfig.xml", "manifest.json",
+             "site.webmanifest", "404.html", "style.css", "feed.atom", "folder.gif", "generic.gif", ".well-known/security.txt",
+             ".well-known/host-meta.xml", ".well-known/change-password.html"]
+LOOKALIKES = ["wapx/page.txt", "wapx.txt", "wap.txt", "GEMINI-QUERYx/page.txt", "GEMINI-QUERY.txt", "URLx.txt", "URL/page.txt",
+              "PYGOPHERD-HTTPPROTO-ICONSx/folder.gif", "PYGOPHERD-HTTPPROTO-ICONS.gif"]
+# the same names where the reservation does not reach: below a sub-directory
+NESTED_ONLY = ["PYGOPHERD-HTTPPROTO-ICONS/folder.gif", "PYGOPHERD-HTTPPROTO-ICONS/mine.gif", "wap/page.txt", "wap/favicon.ico",
+               "GEMINI-QUERY/page.txt", "URL:colon.txt"]
+BINARY_EXT = ("ico", "png", "gif")
+
+
+def wellknown_objects(rng, mtime=1_700_000_000):
+    """A tree whose objects carry such names, at the root and in sub-directories, each with bytes of its own and a type the MIME
+    tables know; `hub` (a UMN link file) links every one of them, also those a listing leaves out (dot directories, robots.txt)."""
+    places = ["", "site/", "site/deep er/"]
+    tree, links = [], []
+    n = 0
+    for place in places:
+        names = WEB_NAMES + LOOKALIKES + (NESTED_ONLY if place else [])
+        if place:
+            names = [x for x in names if rng.random() < 0.7 or x in ("favicon.ico", "index.html", "robots.txt")]
+        for name in names:
+            n += 1
+            ext = name.rsplit(".", 1)[-1]
+            mark = "%s%s #%d %08x" % (place, name, n, rng.getrandbits(32))
+            if ext in BINARY_EXT:
+                data = {"gif": "GIF89a", "png": "\x89PNG\r\n\x1a\n", "ico": "\x00\x00\x01\x00"}[ext] + \
+                    "".join(chr(rng.randrange(256)) for _ in range(rng.randrange(20, 400))) + mark
+                typ = "g" if ext == "gif" else "I"   # (the hub names every object by the item type the object has by itself)
+            elif ext == "html":
+                data = "<html><head><title>page %d</title></head><body><p>%s</p></body></html>\n" % (n, mark)
+                typ = "h"
+            elif ext in ("xml", "atom"):
+                data = "<?xml version=\"1.0\"?>\n<doc>%s</doc>\n" % mark
+                typ = "9" if ext == "atom" else "0"
+            elif ext in ("json", "webmanifest"):
+                data = "{\"name\": \"%s\"}\n" % mark
+                typ = "9"
+            else:
+                data = "this is %s\nsecond line\n" % mark
+                typ = "0"
+            tree.append({"path": place + name, "data": data, "mtime": mtime})
+            links.append("Name=hub %d %s\nType=%s\nPath=/%s\nHost=+\nPort=+\nNumb=%d\n" % (n, name.replace("/", " "), typ, place + name, n))
+    tree.append({"path": "hub/.Links", "data": "\n".join(links), "mtime": mtime})
+    tree.append({"path": "hub/near.txt", "data": "a file next to the hub links\n", "mtime": mtime})
+    return tree
+
+
 FULL_HANDLERS = ("[url.HTMLURLHandler, gophermap.BuckGophermapHandler, mbox.MaildirFolderHandler, "
                  "mbox.MaildirMessageHandler, UMN.UMNDirHandler, tal.TALFileHandler, html.HTMLFileTitleHandler, "
                  "mbox.MBoxMessageHandler, mbox.MBoxFolderHandler, pyg.PYGHandler, scriptexec.ExecHandler, "
@@ -517,6 +568,11 @@ def run(tier):
     cfgm["handlers.HandlerMultiplexer"] = {"handlers": "[ZIP.ZIPHandler, " + FULL_HANDLERS[1:]}
     cfgm["handlers.ZIP.ZIPHandler"] = {"enabled": "true"}
     specs.append({"tree": trees.rich_tree(rng, hostile=False) + menu_objects(), "config": cfgm, "_ae": "always"})
+    # a world of objects named like things a web (or WAP, or Gemini) front-end might answer by itself: every listed link is
+    # followed in every protocol, the bytes and the announced type behind it are the same object everywhere
+    cfgw = dict(trees.SITE_CONFIG)
+    cfgw["pygopherd"] = {"abstract_entries": "always", "abstract_headers": "on"}
+    specs.append({"tree": wellknown_objects(rng), "config": cfgw, "_ae": "always", "max_pages": 600})
     all_pages = pgsite.crawl_worlds(specs)
     ndirs = ndocs = 0
     for wi, pages in enumerate(all_pages):
@@ -583,13 +639,21 @@ def run(tier):
                             mimes[proto] = mime_of(proto, per[proto]["out"].encode("latin-1"))
                         except V.Malformed:
                             mimes[proto] = b"<malformed>"
+                # WAP turns plain text into a deck of its own; everything else it hands on as it is
+                wap_as_is = "wap" in per and mimes.get("http") not in (None, b"<malformed>") and \
+                    mimes["http"].split(b";")[0].strip() != b"text/plain"
+                if wap_as_is:
+                    try:
+                        mimes["wap"] = mime_of("wap", per["wap"]["out"].encode("latin-1"))
+                    except (V.Malformed, KeyError):
+                        mimes["wap"] = b"<malformed>"
                 chk.count((wi, sel, "mime"), nontrivial=True)
                 if len(set(mimes.values())) > 1:
                     found = True
                     chk.violation({"what": "a selector has different MIME types in different protocols", "selector_latin1": sel,
                                    "mime_types": {k: (v.decode("latin-1") if v else None) for k, v in mimes.items()},
                                    "tree": specs[wi]["tree"]}, tag="mime-differs")
-                bodies = {pr: body_of(pr, per[pr]["out"].encode("latin-1")) for pr in per if pr != "wap"}
+                bodies = {pr: body_of(pr, per[pr]["out"].encode("latin-1")) for pr in per if pr != "wap" or wap_as_is}
                 if len(set(bodies.values())) > 1:
                     found = True
                     chk.violation({"what": "a selector resolves to different objects in different protocols", "selector_latin1": sel,
@@ -1043,6 +1107,10 @@ def run(tier):
                             "the Gopher+ view taken in every request form (+, $, $ with attribute lists) and the item descriptor (!) of "
                             "every listed local item; links to other servers (other host and/or port) with selectors of every shape, "
                             "targets compared as (host, port, type, selector) after parsing gopher:// URLs back (RFC 4266); "
+                            "a tree of objects named like things a protocol front-end might answer by itself (favicon.ico, robots.txt, index.*, "
+                            "sitemap.xml, .well-known/..., names resembling the reserved prefixes where they are not reserved), at the root and "
+                            "in sub-directories, every link followed in every protocol, bytes and announced type compared (WAP included "
+                            "wherever it hands the object on as it is); "
                             "directory selectors with and without trailing slash; search strings (ASCII, UTF-8, non-UTF-8 bytes, URL "
                             "metacharacters) submitted through each protocol's own mechanism to a PYG and a CGI echo handler, in-process and over "
                             "real sockets (also with no query at all: absent everywhere; and search items with URL-significant characters followed from "
